@@ -585,4 +585,67 @@ theorem auth_control_flow_extracted :
     Gen.transportAuthFlow.all (fun (sc, calls, ret) => modelFlow .transport sc == (calls, ret)) = true := by
   decide
 
+/-! ## every way out of the two `connect` functions, re-extracted by symbolic execution
+
+`Gen.MuxFacts.dialerConnectFlow` / `transportConnectFlow` (go/extract/muxfacts/symflow.go): for every combination
+of "dial failed / ApiVersions round trip failed / error code in it / SASL configured / host:port unusable /
+authentication failed" the calls made in order, whether the connection is closed (`close`, or the deferred guard
+registered and not cleared) and what is returned.  `*ConnectModelRow` computes the same row from Model/Auth.lean:
+the scenario becomes a configuration and an answer script, and the row is read off the state `run` ends in. -/
+
+def cflag (sc : List String) (p : String) : Bool := sc.contains (p ++ "=true")
+
+def okScript : List Env :=
+  [.versions 0 (some (0, 1)) (some (0, 1)), .reply 0 [] false, .mechStart (some [1]), .reply 0 [] true, .mechNext (some (true, []))]
+
+def wroteHandshake (s : State) : Bool :=
+  s.log.any fun i => match i with | .wrote (.saslHandshake _) => true | _ => false
+
+def dialerConnectModelRow (sc : List String) : List String :=
+  if cflag sc "dialFailed" then ["dial", "return:error"]
+  else
+    let sasl := cflag sc "sasl"
+    let c : Cfg := { path := .dialer, sasl := sasl, addrOk := !(cflag sc "splitFailed") }
+    let script : List Env :=
+      if !sasl || !c.addrOk then []
+      else if cflag sc "authFailed" then [.versions 0 (some (0, 1)) (some (0, 1)), .reply 33 [] false] else okScript
+    match run c script with
+    | none => ["model: script rejected"]
+    | some s =>
+      ["dial", "wrap"] ++ (if sasl then ["split"] else []) ++ (if !s.log.isEmpty then ["auth"] else []) ++
+      (if s.closed then ["close"] else []) ++ [if s.phase == .ready then "return:conn" else "return:error"]
+
+def transportConnectModelRow (sc : List String) : List String :=
+  if cflag sc "dialFailed" then ["dial", "return:error"]
+  else
+    let sasl := cflag sc "sasl"
+    let c : Cfg := { path := .transport, sasl := sasl, addrOk := !(cflag sc "splitFailed") }
+    let versions : List Env :=
+      if cflag sc "apiVersionsFailed" then [.ioerr]
+      else if cflag sc "versionsErrorCode" then [.versions 35 (some (0, 1)) (some (0, 1))]
+      else [.versions 0 (some (0, 1)) (some (0, 1))]
+    match run c versions with
+    | none => ["model: script rejected"]
+    | some s1 =>
+      -- the ApiVersions answer itself was good (the model also fails at this event when host:port is unusable)
+      let versionsOk := s1.phase != .failed || (sasl && !c.addrOk && !(cflag sc "apiVersionsFailed") && !(cflag sc "versionsErrorCode"))
+      let rest : List Env :=
+        if !versionsOk || !sasl || !c.addrOk then []
+        else if cflag sc "authFailed" then [.reply 33 [] false] else okScript.drop 1
+      match runFrom c s1 rest with
+      | none => ["model: script rejected"]
+      | some s =>
+        ["dial", "defer:closeUnlessCleared", "apiVersions"] ++ (if versionsOk then ["setVersions"] else []) ++
+        (if versionsOk && sasl then ["split"] else []) ++ (if wroteHandshake s then ["auth"] else []) ++
+        -- the guard is cleared (and the run loop started) exactly when the model does not close the connection
+        (if s.closed then [] else ["startRun", "clearGuard"]) ++
+        [if s.phase == .ready then "return:conn" else "return:error"]
+
+/-- the extracted exit structure of `(*Dialer).connect` and `(*connGroup).connect` is the model's: same calls,
+closed on exactly the same paths, a connection returned exactly when the model reaches `ready` -/
+theorem connect_flows_are_the_model :
+    Gen.MuxFacts.dialerConnectFlow.all (fun (sc, eff) => dialerConnectModelRow sc == eff) = true ∧
+    Gen.MuxFacts.transportConnectFlow.all (fun (sc, eff) => transportConnectModelRow sc == eff) = true := by
+  decide
+
 end KV.C18
